@@ -56,7 +56,7 @@ func VerifC18Processor() {
 		vAssert(p.memlimiter.MustRefuse() == refusing, "processor/refusing-iff-reading-at-or-above-soft")
 		ld := plog.NewLogs()
 		lrs := ld.ResourceLogs().AppendEmpty().ScopeLogs().AppendEmpty().LogRecords()
-		n := 1 + vChoice("records", 2)
+		n := vChoice("records", 3) // also a payload that carries no record at all
 		for j := 0; j < n; j++ {
 			lrs.AppendEmpty()
 		}
